@@ -82,7 +82,7 @@ REQUIRED = dict(
              'contrib:AbsorptionContribution', 'contrib:CIAContribution', 'contrib:RayleighContribution',
              'contrib:SimpleCloudsContribution', 'contrib:FlatMieContribution', 'contrib:LeeMieContribution',
              'contrib:HydrogenIon', 'history:parameters-changed', 'opacity:files', 'opacity:memory',
-             'contribution-order-changed-by-reload'] + ['stratum:' + k for k in L.KNOWN_BAD])
+             'contribution-order-changed-by-reload', 'models:free-draw'] + ['stratum:' + k for k in L.KNOWN_BAD])
 
 _log = {'writes': [], 'opens': [], 'builtin_opens': [], 'on': False}
 _hook_installed = [False]
@@ -696,9 +696,14 @@ def wl_models(ctx, rng, force=None, stratum='safe'):
     from taurex.exceptions import InvalidModelException
     from taurex.output.hdf5 import HDF5Output
     from taurex.util.hdf5 import taurex_hdf5_to_model
+    if stratum == 'safe' and rng.random() < 0.5:
+        # every finding that once needed its own stratum is repaired: half of the main draws are unrestricted, so that
+        # combinations of those component classes and their non-default constructor values are stored and reloaded too
+        stratum = None
+        ctx.observe('models:free-draw')
     spec = L.rnd_model_spec(rng, force=force, stratum=stratum)
-    ctx.feature(stratum=stratum)
-    tag = '' if stratum == 'safe' else '[%s]' % stratum      # known-bad strata never share a monitor with the main one
+    ctx.feature(stratum=stratum or 'free')
+    tag = '' if stratum in ('safe', None) else '[%s]' % stratum      # known-bad strata never share a monitor with the main one
     use_files = bool(rng.random() < 0.5)
     prepare_opacities(ctx, spec, use_files)
     model = L.build_full_model(spec, ctx.scratch)
